@@ -35,6 +35,8 @@ def quick_specs():
     S.append(spec("console-text", "journal", O(export=["text"], tables="t0"), group="formats"))
     S.append(spec("case-only", "wal", O(dir="{out}", export=["case"]), group="formats"))
     S.append(spec("case-csv", "plain", O(dir="{out}", export=["csv", "case"], tables="t2"), "env", group="formats"))
+    # an evidence file of more than 8 MiB (restricted to a small table: the bulk table is parsed, not exported)
+    S.append(spec("large-csv", "large", O(dir="{out}", export=["csv", "text"], tables="t2"), group="formats"))
     # formats are independent (same evidence: plain)
     for name, fm in (("csv", ["csv"]), ("sqlite", ["sqlite"]), ("text", ["text"]), ("xlsx", ["xlsx"]), ("all", ALL4)):
         S.append(spec(f"ind-{name}", "plain", O(dir="{out}", export=fm), group="independent"))
@@ -127,6 +129,11 @@ def quick_specs():
     S.append(spec("multi-case", "multi", O(dir="{out}", export=["case", "sqlite"], tables="t2"), input_name="", group="multi"))
     # several inputs and a file prefix: every input gets its own sub-directory of the output directory
     S.append(spec("multi-pfx", "multi", O(dir="{out}", export=["csv", "sqlite", "text"], tables="t2", prefix="mp"), "env", input_name="", group="multi"))
+    # a directory of inputs named relative to the working directory, output directory and log file relative too (no "..":
+    # they must land in the working directory, not wherever the scan of the evidence directory left the process)
+    S.append(spec("multi-rel", "multi", O(dir="out2", export=["csv", "text"], tables="t2", log="rel.log", level="info"),
+                  relative_db=True, input_name="", no_model=True, group="multi",
+                  extra_roots=[("OUTPUT", "cwd/out2"), ("LOG", "cwd/rel.log")]))
     # odd table names
     S.append(spec("odd-space-csv", "odd_space", O(dir="{out}", export=["csv", "text", "xlsx"]), group="names"))
     S.append(spec("odd-space-sqlite", "odd_space", O(dir="{out}", export=["sqlite"]), group="names"))
@@ -177,7 +184,7 @@ def to_job(s, pool, table, scratch, post=None, pre=None):
     if s.get("missing_input"):
         first = "{ev}/does-not-exist.db"
     elif s.get("relative_db"):
-        first = "../ev/" + es["main"]
+        first = "../ev/" + (s["input_name"] if "input_name" in s else es["main"])
     elif "input_name" in s:
         first = "{ev}/" + s["input_name"] if s["input_name"] else "{ev}"
     else:
@@ -187,7 +194,7 @@ def to_job(s, pool, table, scratch, post=None, pre=None):
     job = {"id": s["id"], "scratch": scratch, "evidence": es, "argv": [first] + tail + list(s.get("extra_argv", [])),
            "env": env, "cfg": cfg, "table": table, "entry": s.get("entry", "cli"), "spec": s, "post": post, "pre": pre,
            "keep_events": False}
-    for k in ("only", "copy", "remove", "pre_out", "pre_files", "pre_log", "extra_files"):
+    for k in ("only", "copy", "remove", "pre_out", "pre_files", "pre_log", "extra_files", "extra_roots"):
         if k in s:
             job[k] = s[k]
     return job
